@@ -95,14 +95,16 @@ namespace avel {
 
     [[nodiscard]]
     AVEL_FINL std::int32_t negate(bool m, std::int32_t x) {
-        std::int32_t mask = -m;
-        return (x ^ mask) - mask;
+        // Performed on unsigned integers so that negating the minimum value wraps
+        std::uint32_t mask = -std::uint32_t(m);
+        return std::int32_t((std::uint32_t(x) ^ mask) - mask);
     }
 
     [[nodiscard]]
     AVEL_FINL std::int32_t abs(std::int32_t x) {
         if (x < 0) {
-            return -x;
+            // Performed on unsigned integers so that the minimum value wraps
+            return std::int32_t(std::uint32_t(0) - std::uint32_t(x));
         } else {
             return x;
         }
